@@ -42,7 +42,8 @@ def value_sources(work):
         f.write(one_packet_pcap(3))
     vals = [0, 1, -1, 2, 7, 63, 64, 65, 100, 255, 256, 4096, 65535, 65536, 0xD800, 0x10FFFF, 0x110000, 1 << 31, 1 << 32,
             I64_MAX, I64_MIN, I64_MIN + 1,
-            0.0, -0.0, 1.5, -1.5, 1e308, -1e308, 5e-324, math.nan, math.inf, -math.inf, 255.5, 1e19, -1e19, 4294967296.5,
+            0.0, -0.0, 1.5, -1.5, 1e308, -1e308, 5e-324, 1.7976931348623157e308, -1.7976931348623157e308, 8.98846567431158e307, 2.2250738585072014e-308,
+            9007199254740993.0, 9.223372036854775807e18, 1.8446744073709552e19, 0.1 + 0.2, 4.9e-324, math.nan, math.inf, -math.inf, 255.5, 1e19, -1e19, 4294967296.5,
             Byte(0), Byte(1), Byte(127), Byte(128), Byte(255), Char("a"), Char("é"), Char(0x10FFFF), Char(0),
             "", "s", "é", "{}", "{", "}", "{:", "{0", "{:>}", "{:999999999999999999999}", "{99999999999999999999}",
             "{18446744073709551615}", "{18446744073709551614}", "{18446744073709551616}", "{9223372036854775807}", "{9223372036854775808}",
@@ -123,6 +124,11 @@ FILTER_PROGRAMS = [
     "@ true { let f = fn() { $1 }; puts(f()); }", "@ true { fn g() { return $2; } puts(g()); }",
     "let p = $0; puts(p); @ true", "puts($1);", "@ true { exit(3); }", "@ true { let a = []; loop { push(a, $0); if len(a) > 50 { break; } } }",
     "@ (fn() { true })()", "@ true { @ true { puts(1); } }", "@ end { @ end { } }", "@ end { } @ end { }",
+    # filter statements written inside a function: whatever they mention (locals, parameters, captured variables, globals)
+    "fn f() { let x = 1; @ true { println(\"{}\", x); } } f();", "fn f(a) { @ true { puts(a); } } f(5);", "let g = 7; fn f() { @ true { puts(g); } } f();",
+    "fn f(a) { @ a > 1 } f(5);", "fn f() { let x = [1]; @ end { push(x, 2); puts(x); } } f();", "fn mk(n) { fn() { @ true { puts(n); } } } mk(3)();",
+    "fn f() { let x = 1; @ true { x = x + 1; } x } puts(f());", "fn f(a, b) { let c = a + b; @ c > 0 { let d = c; puts(d, a, b); } } f(1, 2);",
+    "fn f() { let i = 0; while i < 2 { @ true { puts(i); } i = i + 1; } } f();", "let t = fn(q) { @ q }; t(true);",
     # return must stay rejected wherever it stands in a filter action, also after nested constructs
     "@ true { @ true { } return; }", "@ true { @ true { puts(1); } if PL < 100 { return; } puts(2); }", "@ end { @ end { } return 1; }",
     "@ true { fn g() { return 1; } return g(); }", "@ true { let f = fn() { return 2; }; f(); return; }", "@ true { { return; } }",
